@@ -1,0 +1,32 @@
+// +build verif
+
+// Accessors used by the external verification harness (/verif, property C04,
+// part "stepview": the node's own sortition results).  Compiled only with
+// -tags verif; nothing here changes behaviour.
+
+package ucon
+
+import (
+	"math/big"
+
+	"github.com/youchainhq/go-youchain/common"
+	"github.com/youchainhq/go-youchain/crypto/vrf"
+	"github.com/youchainhq/go-youchain/params"
+)
+
+// VerifC04cManager builds the node's sortition manager exactly as StartMining
+// does (same constructor, same look-back function values of this Server).
+func (s *Server) VerifC04cManager(vrfSk vrf.PrivateKey, addr common.Address) *SortitionManager {
+	return NewSortitionManager(vrfSk, s.getLookbackStakeInfo, s.getLookBackSeed, addr)
+}
+
+// VerifC04cIsProposer is the lookup Server.Prepare makes.
+func (sm *SortitionManager) VerifC04cIsProposer(round *big.Int, roundIndex uint32) (bool, *StepView) {
+	return sm.isProposer(round, roundIndex)
+}
+
+// VerifC04cIsValidator is the lookup Voter.vote makes (the function value
+// handed to NewVoter).
+func (sm *SortitionManager) VerifC04cIsValidator(round *big.Int, roundIndex uint32, step uint32, lbType params.LookBackType) (bool, *StepView) {
+	return sm.isValidator(round, roundIndex, step, lbType)
+}
